@@ -5,13 +5,34 @@ the constant 0); an atom is (word term, bit index).  Shifts, shuffles, moves, by
 form is exact and canonical for them.  OR is evaluated only where, bit for bit, one operand is the constant 0 (the rotate idiom
 `(x >> n) | (x << (32 - n))`); anything else is "cannot evaluate", never a guess.  The one non-linear operation, addition modulo 2^32
 per 32-bit lane, makes a new word term Sum(multiset of operand lanes): modular addition is associative and commutative, so a
-flattened multiset of operands is a canonical form for sums (a zero lane is dropped, a lane that is exactly a Sum is merged).
+flattened multiset of operands (operand lane -> multiplicity) is a canonical form for sums (a zero lane is dropped, a lane that is
+exactly a Sum is merged into the sum it is added to).
 Two values built this way are equal as functions of the inputs if they are equal as data; the converse can fail (a sum written
 as a different but equal expression), in which case the rule that compares them answers "not shown", not "wrong".
 
 Lane numbering is Intel's: lane 0 is bits 0..31, the lowest."""
 
 ZERO = frozenset()
+_TABLE = []          # id -> structure of the word term
+_IDS = {}            # structure -> id
+
+
+def intern(key):
+    """Word terms are hash-consed: structurally equal terms get the same small integer, so that nested sums are compared and
+    hashed by identity (the terms of sixty-four rounds form a deep DAG)."""
+    i = _IDS.get(key)
+    if i is None:
+        i = len(_TABLE)
+        _TABLE.append(key)
+        _IDS[key] = i
+    return i
+
+
+def structure(i):
+    return _TABLE[i]
+
+
+ONE = frozenset([(intern(("one",)), 0)])       # the constant bit 1
 
 
 class CannotEvaluate(Exception):
@@ -20,7 +41,28 @@ class CannotEvaluate(Exception):
 
 def word(term):
     """The 32 bits of a word term, as a lane."""
+    if not isinstance(term, int):
+        term = intern(term)
     return tuple(frozenset([(term, i)]) for i in range(32))
+
+
+def const_lane(value, bits=32):
+    return tuple(ONE if (value >> i) & 1 else ZERO for i in range(bits))
+
+
+def const_of(bits):
+    """Integer value of a run of constant bits, or None."""
+    v = 0
+    for i, b in enumerate(bits):
+        if b == ONE:
+            v |= 1 << i
+        elif b:
+            return None
+    return v
+
+
+def _lane_key(l):
+    return tuple(tuple(sorted(b)) for b in l)
 
 
 def vec_of_words(terms):
@@ -55,22 +97,39 @@ def add32(x, y):
     """Lane-wise addition modulo 2^32."""
     out = []
     for a, b in zip(lanes32(x), lanes32(y)):
-        ops = []
+        ops = {}
         for l in (a, b):
             if is_zero(l):
                 continue
             t = as_word(l)
-            if t is not None and isinstance(t, tuple) and t and t[0] == "sum":
-                ops += list(t[1])
+            if t is not None and structure(t)[0] == "sum":
+                for ol, cnt in structure(t)[1]:
+                    ops[ol] = ops.get(ol, 0) + cnt
             else:
-                ops.append(l)
+                ops[l] = ops.get(l, 0) + 1
+        # multiplicities are counted modulo 2^32 (2^32 * x == 0 in a 32-bit lane)
+        ops = {l: c % (1 << 32) for l, c in ops.items() if c % (1 << 32)}
         if not ops:
             out += [ZERO] * 32
-        elif len(ops) == 1:
-            out += list(ops[0])
+        elif len(ops) == 1 and list(ops.values())[0] == 1:
+            out += list(list(ops)[0])
         else:
-            out += list(word(("sum", tuple(sorted(ops, key=repr)))))
+            out += list(word(intern(("sum", tuple(sorted(ops.items(), key=lambda kv: _lane_key(kv[0])))))))
     return out
+
+
+def add_lanes(*ls):
+    """Sum of several 32-bit lanes, as a lane."""
+    acc = [ZERO] * 128
+    for l in ls:
+        acc = add32(acc, list(l) + [ZERO] * 96)
+    return tuple(acc[:32])
+
+
+def bitwise3(kind, x, y, z):
+    """Ch / Maj of three lanes: a word term of its own (the only non-linear bit operations of SHA-256; both sides of a comparison
+    build them from the same canonical lanes)."""
+    return word(intern((kind, x, y, z)))
 
 
 def shift_lanes(v, width, n, left):
@@ -139,6 +198,15 @@ class Evaluator:
             if t in env:
                 return env[t]
             raise CannotEvaluate("value of %s is not known here" % t[1])
+        if t[0] == "[]" and t[1][0] == "v" and t[2][0] == "c":
+            if t in env:
+                return env[t]
+            raise CannotEvaluate("value of %s[%s] is not known here" % (t[1][1], t[2][1]))
+        if t[0] == "&" and t[1][0] == "[]" and t[1][1][0] == "v" and t[1][2][0] == "c":
+            base = env.get(t[1][1])
+            if isinstance(base, tuple) and base and base[0] == "ptr":
+                return ("ptr", base[1], base[2] + t[1][2][1] * base[3], base[3])
+            raise CannotEvaluate("address of an element of something that is not an input array")
         if t[0] == "cast":
             return self.ev(t[-1], env, depth)
         if t[0] == "=":
@@ -151,6 +219,46 @@ class Evaluator:
         A = lambda i: self.ev(args[i], env, depth)
         if name in ("_mm_castps_si128", "_mm_castsi128_ps"):
             return A(0)
+        if name == "_mm_loadu_si128":
+            p = A(0)
+            if not (isinstance(p, tuple) and p and p[0] == "ptr") or p[2] % 4:
+                raise CannotEvaluate("load from something that is not a word-aligned offset of an input array")
+            return vec_of_words([intern((p[1], p[2] // 4 + i)) for i in range(4)])
+        if name == "_mm_set_epi32":
+            out = []
+            for i in (3, 2, 1, 0):
+                out += list(const_lane(self.const(args[i]) & 0xffffffff))
+            return out
+        if name == "_mm_set_epi8":
+            out = []
+            for i in range(15, -1, -1):
+                out += list(const_lane(self.const(args[i]) & 0xff, 8))
+            return out
+        if name in ("_mm_shuffle_epi8", "__builtin_ia32_pshufb128"):
+            x, m = A(0), A(1)
+            out = []
+            for i in range(16):
+                sel = const_of(m[8 * i:8 * i + 8])
+                if sel is None:
+                    raise CannotEvaluate("byte shuffle with a mask that is not constant")
+                out += [ZERO] * 8 if sel & 0x80 else list(x[8 * (sel & 15):8 * (sel & 15) + 8])
+            return out
+        if name == "__builtin_ia32_palignr128":
+            a, b, n = A(0), A(1), self.const(args[2])
+            cat = list(b) + list(a)
+            return (cat[8 * n:] + [ZERO] * 256)[:128]
+        if name == "_mm_unpackhi_epi64":
+            a, b = A(0), A(1)
+            return list(a[64:]) + list(b[64:])
+        if name == "_mm_unpacklo_epi64":
+            a, b = A(0), A(1)
+            return list(a[:64]) + list(b[:64])
+        if name == "_mm_sha256rnds2_epu32":
+            return sha256rnds2(A(0), A(1), A(2))
+        if name == "_mm_sha256msg1_epu32":
+            return sha256msg1(A(0), A(1))
+        if name == "_mm_sha256msg2_epu32":
+            return sha256msg2(A(0), A(1))
         if name == "_mm_xor_si128":
             return xor(A(0), A(1))
         if name == "_mm_or_si128":
@@ -183,6 +291,7 @@ class Evaluator:
         for p, v in zip(f.params, argvals):
             env[("v", p["name"], p["id"])] = v
         order = f.rpo()
+        self.stores = getattr(self, "stores", [])
         for bid in order:
             blk = f.blocks[bid]
             if blk.cond is not None and len([s for s in blk.succs if s is not None]) > 1:
@@ -192,11 +301,15 @@ class Evaluator:
                     for d in e.decls or []:
                         if isinstance(d, dict) and d.get("init"):
                             env[("v", d["name"], d["id"])] = self.ev(norm(f.elem(d["init"])), env, depth)
-                elif e.is_assign and e.op == "=" and norm(e.kid(0))[0] == "v":
+                elif e.is_assign and e.op == "=" and (norm(e.kid(0))[0] == "v" or (norm(e.kid(0))[0] == "[]" and norm(e.kid(0))[1][0] == "v" and norm(e.kid(0))[2][0] == "c")):
                     env[norm(e.kid(0))] = self.ev(norm(e.kid(1)), env, depth)
+                elif e.cls == "CallExpr" and e.callee == "_mm_storeu_si128" and depth == 0:
+                    self.stores.append((self.ev(norm(e.arg(0)), env, depth), self.ev(norm(e.arg(1)), env, depth), e))
                 elif e.cls == "ReturnStmt":
+                    if not e.kids:
+                        return None
                     return self.ev(norm(e.kid(0)), env, depth)
-        raise CannotEvaluate("%s does not return a value" % f.name)
+        return None
 
 
 # ---- SHA-256's small sigma functions on a lane, from FIPS 180-4 ---------------------------------
@@ -218,6 +331,52 @@ def sigma0(l):
 
 def sigma1(l):
     return _x3(_rotr(l, 17), _rotr(l, 19), _shr(l, 10))
+
+
+def big_sigma0(l):
+    return _x3(_rotr(l, 2), _rotr(l, 13), _rotr(l, 22))
+
+
+def big_sigma1(l):
+    return _x3(_rotr(l, 6), _rotr(l, 11), _rotr(l, 25))
+
+
+def sha256_round(st, wk_lanes):
+    """One round of FIPS 180-4's compression function on the eight lanes (a..h); wk_lanes are added as they are (W_t and K_t, or
+    their sum)."""
+    a, b, c, d, e, f, g, h = st
+    t1 = add_lanes(h, big_sigma1(e), bitwise3("ch", e, f, g), *wk_lanes)
+    t2 = add_lanes(big_sigma0(a), bitwise3("maj", a, b, c))
+    return (add_lanes(t1, t2), a, b, c, add_lanes(d, t1), e, f, g)
+
+
+def sha256rnds2(src1, src2, wk):
+    """Intel SDM, SHA256RNDS2: two rounds on (C,D,G,H) = src1, (A,B,E,F) = src2 (lane 3 first), WK in the two low lanes of wk."""
+    s1, s2, k = lanes32(src1), lanes32(src2), lanes32(wk)
+    st = (s2[3], s2[2], s1[3], s1[2], s2[1], s2[0], s1[1], s1[0])
+    for i in range(2):
+        st = sha256_round(st, [k[i]])
+    a, b, c, d, e, f, g, h = st
+    return list(f) + list(e) + list(b) + list(a)
+
+
+def sha256msg1(x, y):
+    a, b = lanes32(x), lanes32(y)
+    w = a + [b[0]]
+    out = []
+    for i in range(4):
+        out += list(add_lanes(w[i], sigma0(w[i + 1])))
+    return out
+
+
+def sha256msg2(x, y):
+    a, b = lanes32(x), lanes32(y)
+    w14, w15 = b[2], b[3]
+    w16 = add_lanes(a[0], sigma1(w14))
+    w17 = add_lanes(a[1], sigma1(w15))
+    w18 = add_lanes(a[2], sigma1(w16))
+    w19 = add_lanes(a[3], sigma1(w17))
+    return list(w16) + list(w17) + list(w18) + list(w19)
 
 
 def schedule_word(W, t):
